@@ -48,6 +48,8 @@ type vinfo struct {
 	self     bool // function variable visible inside its own literal only so far
 	ptys     []Ty // parameter type guesses of a function value
 	alen     int  // known minimal length of an array value (0 = unknown/empty)
+	fnLvl    int  // function nesting depth at the declaration
+	loopLvl  int  // loop nesting depth (within its function) at the declaration
 }
 
 type scope struct {
@@ -71,6 +73,7 @@ type Opts struct {
 	NoHostFns    bool
 	AllowExport  bool
 	ControlHeavy bool // bias towards loops, branches, returns and function literals
+	DeadCode     bool // keep generating statements after return/break/continue more often
 }
 
 // G is the generation context.
@@ -83,6 +86,7 @@ type G struct {
 	loopDepth int // loops inside the current function
 	stmtBudget int
 	label    int
+	hideLoop []int // ScopeIndep: function depths whose loop-body variables are hidden (inside a function literal made in a loop)
 	errMode  bool // this program may contain deliberately ill-typed sites
 	// stats for classification
 	Feat map[string]int
@@ -131,7 +135,19 @@ func (g *G) weighted(label string, w ...int) int {
 func (g *G) push(isFunc bool) { g.sc = &scope{parent: g.sc, isFunc: isFunc} }
 func (g *G) pop()             { g.sc = g.sc.parent }
 
-func (g *G) declare(v *vinfo) { g.sc.vars = append(g.sc.vars, v) }
+func (g *G) declare(v *vinfo) {
+	v.fnLvl, v.loopLvl = g.fnDepth, g.loopDepth
+	g.sc.vars = append(g.sc.vars, v)
+}
+
+func (g *G) hidden(v *vinfo) bool {
+	for _, d := range g.hideLoop {
+		if v.fnLvl == d && v.loopLvl > 0 {
+			return true
+		}
+	}
+	return false
+}
 
 // visible returns visible variables, innermost first, shadowed ones removed.
 func (g *G) visible() []*vinfo {
@@ -142,7 +158,9 @@ func (g *G) visible() []*vinfo {
 			v := s.vars[i]
 			if !seen[v.name] {
 				seen[v.name] = true
-				out = append(out, v)
+				if !g.hidden(v) {
+					out = append(out, v)
+				}
 			}
 		}
 	}
@@ -348,7 +366,11 @@ func (g *G) block(n int, top bool) *lang.Node {
 		b.Kids = append(b.Kids, s)
 		if s.K == "return" || s.K == "break" || s.K == "continue" {
 			// code after a terminating statement: sometimes keep going (dead code)
-			if !g.chance(250, "deadAfter") {
+			pDead := 250
+			if g.o.DeadCode {
+				pDead = 650
+			}
+			if !g.chance(pDead, "deadAfter") {
 				break
 			}
 			g.feat("dead-code-after-terminator")
@@ -484,6 +506,12 @@ func (g *G) funcLit(np int, variadic bool, self *vinfo) *lang.Node {
 			self.ptys = ptys
 		}
 	}()
+	if g.o.ScopeIndep && g.loopDepth > 0 && g.fnDepth == 0 {
+		// the documented scope-dependent case: a closure made in a loop body
+		// must not capture a variable declared in that body
+		g.hideLoop = append(g.hideLoop, g.fnDepth)
+		defer func() { g.hideLoop = g.hideLoop[:len(g.hideLoop)-1] }()
+	}
 	g.push(true)
 	saveLoop := g.loopDepth
 	g.loopDepth = 0
@@ -853,7 +881,7 @@ func (g *G) callStmt() *lang.Node {
 	g.feat("call-stmt")
 	switch g.weighted("callStmtKind", 5, 3, 3, 2) {
 	case 0:
-		if f := g.pickVar("callFn", func(v *vinfo) bool { return v.t == TFn }); f != nil {
+		if f := g.pickVar("callFn", func(v *vinfo) bool { return v.t == TFn && !v.self }); f != nil {
 			return lang.ExprStmt(g.callOf(f))
 		}
 	case 1:
